@@ -235,7 +235,12 @@ def coverage_ok(paths):
 class SymDim(Dimension):
     """sympy Dimension whose exponent vector is symbolic (8 z3 Reals)"""
     _registry = {}
+    _tainted = set()
     _count = itertools.count()
+
+    @property
+    def tainted(self):
+        return self.name in SymDim._tainted
 
     def __new__(cls, vec_or_name, symbol=None):
         if isinstance(vec_or_name, (list, tuple)):
@@ -254,7 +259,10 @@ class SymDim(Dimension):
 
     def __mul__(self, other):
         if isinstance(other, Dimension):
-            return SymDim([a + b for a, b in zip(self.vec, to_vec(other))])
+            d = SymDim([a + b for a, b in zip(self.vec, to_vec(other))])
+            if self.tainted or getattr(other, "tainted", False):
+                SymDim._tainted.add(d.name)
+            return d
         o = sp.sympify(other)
         if o.has(sp.physics.units.Quantity):
             raise TypeError("cannot sum dimension and quantity")
@@ -273,8 +281,13 @@ class SymDim(Dimension):
         return SymDim([-a for a in self.vec])
 
     def __pow__(self, other):
-        e = S().z(other)
-        return SymDim([a * e for a in self.vec])
+        o = sp.sympify(other)
+        e = S().z(o)
+        d = SymDim([a * e for a in self.vec])
+        if o.atoms(sp.physics.units.Quantity) or self.name in SymDim._tainted:
+            # the real Dimension would carry Quantity objects in its exponent: not a dimension dimsys_SI can process
+            SymDim._tainted.add(d.name)
+        return d
 
     def _eval_power(self, other):
         return self.__pow__(other)
@@ -445,7 +458,8 @@ class SymFloat:
     def lift(x):
         if isinstance(x, SymFloat):
             return x.t
-        if isinstance(x, (int, float)):
+        import fractions
+        if isinstance(x, (int, float, fractions.Fraction)):
             from vlib.s2smt import qv
             return qv(x)
         if isinstance(x, sp.Basic):
